@@ -1,5 +1,5 @@
 CONSTANTS
-  Mode = "doc"
+  Mode = "stream"
   Lens <- LensQuick
   Chunkings <- ChunkingsOne
   MaxWrites = 3000
@@ -7,8 +7,9 @@ CONSTANTS
   Consumers = {0}
   Rewrites <- RewritesId
   Inserts <- InsertsNone
-  DocKinds <- KindsCore6
-  DocMax = 6
-SPECIFICATION Spec
-INVARIANTS DecTypeOK DecResultIsContract FirstWithinAnyClass DataIffWellFormed PromptDelivery BoundedBuffer
+  DocKinds <- KindsFull
+  DocMax = 4
+INIT Init
+NEXT Stutter
+INVARIANT Emit
 CHECK_DEADLOCK FALSE
